@@ -53,6 +53,9 @@ pub enum Op {
     Pin(u8),
     Unpin,
     Restart,
+    /// a cycle during which one request fails: 0 = the catalog commit of a compaction fails before taking effect,
+    /// 1 = it takes effect but reports an error, 2 = the upload of the merged chunk fails, 3 = completing the lease fails
+    CycleFault(u8),
 }
 
 #[derive(Debug, Clone, serde::Serialize, serde::Deserialize)]
@@ -185,6 +188,19 @@ impl World {
                 self.pinned_paths.clear();
             }
             Op::Restart => self.restart().await,
+            Op::CycleFault(k) => {
+                use crate::engine::sched::Decision;
+                match k {
+                    0 => self.rec.inject_failure("complete_compaction_with_target", Decision::FailBefore),
+                    1 => self.rec.inject_failure("complete_compaction_with_target", Decision::FailAfter),
+                    2 => self.gs.inject_failure("PUT", "/compacted/", Decision::FailBefore),
+                    _ => self.rec.inject_failure("complete_lease", Decision::FailBefore),
+                }
+                // the cycle may or may not report the failure; either is fine, deletions are what is judged
+                let _ = self.compactor.run_compaction_cycle().await;
+                self.rec.clear_injections();
+                self.gs.clear_injections();
+            }
         }
         self.judge().await
     }
@@ -307,7 +323,7 @@ impl World {
 }
 
 fn alphabet() -> Vec<Op> {
-    vec![Op::Cycle, Op::Clock(100), Op::Clock(301), Op::Clock(DAY_S), Op::Pin(0), Op::Pin(1), Op::Unpin, Op::Restart]
+    vec![Op::Cycle, Op::Clock(100), Op::Clock(301), Op::Clock(DAY_S), Op::Pin(0), Op::Pin(1), Op::Unpin, Op::Restart, Op::CycleFault(0), Op::CycleFault(1), Op::CycleFault(2), Op::CycleFault(3)]
 }
 
 #[derive(Default)]
